@@ -15,7 +15,7 @@ PROP = {'lean_props': ['Comrak.Props.C15'],
                        'ref_ids_distinct_counterexample',
                        'unreferenced_omitted_counterexample',
                        'defs_rendered_once_counterexample',
-                       'refs_point_to_rendered_def_counterexample'],
+                       'refs_point_to_rendered_def_after_fix'],
  'strength': 'anchors: full (every normalisation table, every issued set, every list of heading texts). Footnotes: numbering in '
              'first-reference order proved for every tree and label normaliser; the remaining clauses (references point to a definition '
              'rendered once, back-links match references, ref_nums 1..total, unreferenced omitted) are NOT proved in general: the real pass '
